@@ -290,6 +290,11 @@ Lemma allowlist_off pol a :
   p_allow_on pol = false -> blocked pol a = in_nets (p_block pol) a.
 Proof. unfold blocked. now intros ->. Qed.
 
+Lemma allowlist_precedence pol a :
+  (p_allow_on pol = true -> blocked pol a = negb (in_nets (p_allow pol) a)) /\
+  (p_allow_on pol = false -> blocked pol a = in_nets (p_block pol) a).
+Proof. split; [exact (allowlist_on pol a) | exact (allowlist_off pol a)]. Qed.
+
 Lemma in_nets_exists l a : in_nets l a = true <-> exists n, In n l /\ contains n a = true.
 Proof. unfold in_nets. apply existsb_exists. Qed.
 
@@ -430,6 +435,24 @@ Proof.
   rewrite (H host port eq_refl). reflexivity.
 Qed.
 
+Lemma resolved_once parse_ip resolve ip_str re_match pol s :
+  (length (snd (parse_or_resolve_tr parse_ip resolve ip_str re_match pol s)) <= 1)%nat /\
+  (forall h, In h (snd (parse_or_resolve_tr parse_ip resolve ip_str re_match pol s)) ->
+             exists port, split_host_port s = Some (h, port)) /\
+  (forall out lk, parse_or_resolve parse_ip resolve ip_str re_match pol s = (Some out, lk) ->
+             exists host port, split_host_port s = Some (host, port) /\
+               snd (parse_or_resolve_tr parse_ip resolve ip_str re_match pol s) = [host]) /\
+  (forall resolve2, (forall h p, split_host_port s = Some (h, p) -> resolve h = resolve2 h) ->
+             parse_or_resolve_tr parse_ip resolve ip_str re_match pol s =
+             parse_or_resolve_tr parse_ip resolve2 ip_str re_match pol s).
+Proof.
+  repeat split.
+  - apply resolved_once_count.
+  - apply resolved_once_host.
+  - apply resolved_once_accepted.
+  - intros. now apply resolver_used_only_at_host.
+Qed.
+
 (* ================================================================ Go's net package, assumed *)
 Section GoNet.
   Variable parse_ip : bytes -> option ipraw.
@@ -507,3 +530,19 @@ Section GoNet.
     - now rewrite (blocked_norm pol a' a Hn).
   Qed.
 End GoNet.
+
+(* the same with the quantifiers in the order of the statement in Props.v *)
+Lemma dial_target_is_checked_q :
+  forall ip_str : ipraw -> bytes,
+    (forall a, valid_ip a = true -> no_brackets (ip_str a) = true) ->
+    forall parse_ip re_match resolve resolve_later pol s out lk,
+      zone_law resolve -> literal_law ip_str resolve_later ->
+      parse_or_resolve parse_ip resolve ip_str re_match pol s = (Some out, lk) ->
+      exists host port a z a',
+        split_host_port s = Some (host, port) /\ resolve host = Some (a, z) /\
+        valid_ip a = true /\ blocked pol a = false /\
+        dial_target resolve_later out = Some (a', z, port) /\
+        norm a' = norm a /\ blocked pol a' = false.
+Proof.
+  intros ip_str G2 parse_ip re_match. exact (dial_target_is_checked parse_ip ip_str re_match G2).
+Qed.
